@@ -247,6 +247,35 @@ class K2Adapter(CaseAdapter):
                              'two-sources', 'adjust', 'raw']}
 
 
+class K5Adapter(CaseAdapter):
+    module_name = 'k5'
+    label = 'K5 (harness/k5.py)'
+    N = dict(quick=500, thorough=5000)
+    SEARCH = dict(quick=800, thorough=5000)
+    rule = ('seeded price streams (flat stretches, 2-decimal and full-precision moves) fed to Momentum/SMA/Volatility signals with '
+            '1-3 lookbacks over 1-4 assets whose names contain underscores and digits, refused non-positive prices, unknown '
+            'buffers, a late asset; and SignalsCollection.update over static and dynamic universes with entries before, on and '
+            'after the first update; evaluations = cases (streams/collections); non-trivial = at least three accepted prices / '
+            'three updates; distinct by SHA-256')
+    assumptions = ['signal values pass through NumPy reductions (pairwise summation): compared at 1e-9 relative, buffers exactly']
+    required_hist = {'C16': ['sig:mom', 'sig:sma', 'sig:vol', 'coll:asset-entered-later', 'stream:refused-price',
+                             'stream:warming-up-zero']}
+
+
+class K6Adapter(CaseAdapter):
+    module_name = 'k6'
+    label = 'K6 (harness/k6.py)'
+    N = dict(quick=120, thorough=3000)
+    SEARCH = dict(quick=200, thorough=2000)
+    rule = ('seeded positive equity curves of 2-800 business days (random walks, first point is the peak, monotone up/down, long '
+            'flat stretches, early year crossings) with periods 252/52/12; evaluations = curves; every number of '
+            'JSONStatistics, TearsheetStatistics.get_results and performance.* is compared with the model; non-trivial = at '
+            'least five points and a positive maximum drawdown; distinct by SHA-256')
+    assumptions = ['statistics pass through NumPy/pandas reductions and exp/log/sqrt/pow: compared at 1e-9 relative (DESIGN.md 3.3)']
+    required_hist = {'C17': ['first-point-is-peak', 'crosses-year', 'crosses-month', 'iso-week-year-boundary',
+                             'mode:flat-stretches', 'mode:monotone-up']}
+
+
 class Composite(object):
     """Several harnesses decide one property: results are concatenated, coverage is summed / nested."""
     parts = ()
@@ -309,4 +338,6 @@ PROPS = {p: K3Adapter for p in ('C01', 'C02', 'C03', 'C05', 'C15')}
 PROPS['C04'] = C04Adapter
 PROPS.update({p: K1Adapter for p in ('C12', 'C13')})
 PROPS['C06'] = K2Adapter
+PROPS['C16'] = K5Adapter
+PROPS['C17'] = K6Adapter
 PROPS.update({p: K4Adapter for p in ('C09', 'C10', 'C11', 'C19')})
